@@ -312,6 +312,15 @@ class Interp:
         raise PyRaise(exc)
 
     def model_for(self, f):
+        if isinstance(f, types.MethodType) and not isinstance(f.__self__, type):
+            # bound method of a real object: a model registered for the underlying function receives self first
+            try:
+                m = self.models.get(unwrap(f.__func__))
+            except TypeError:
+                m = None
+            if m is not None:
+                owner = f.__self__
+                return lambda it, args, kwargs, m=m, owner=owner: m(it, [owner] + list(args), kwargs)
         key = unwrap(f) if not isinstance(f, (types.BuiltinFunctionType, type)) else f
         try:
             m = self.models.get(key)
@@ -1103,6 +1112,9 @@ class SymMethod:
     def call(self, it, args, kwargs):
         fn = _SYM_METHODS.get((type(self.o), self.name))
         if fn is None:
+            pytypes = {Rope: (bytes, str), TokStr: (str,), AbsStr: (str,), SInt: (int,), SBool: (bool,)}.get(type(self.o), ())
+            if pytypes and not any(hasattr(t, self.name) for t in pytypes):
+                raise PyRaise(AttributeError(f"'{pytypes[0].__name__}' object has no attribute '{self.name}'"))
             raise Unsupported(f"method {type(self.o).__name__}.{self.name}")
         return fn(it, self.o, *args, **kwargs)
 
